@@ -177,7 +177,20 @@ def body(ctx, case):
             elif abs(v / start_vals[i][k] - 1) > 0.05:
                 moved = True
     if constraint_check:
+        # the start value of a parameter tied by a constraint expression must not matter: start every other parameter at
+        # the truth (a stationary point of the noise-free problem) and the tied one far away
         i1, i2, ratio = constraint_check
+        probe = parse_cdc(case["family"])
+        _apply(probe, case["truth"])
+        p_els = probe.get_elements()
+        p_els[i2].set_lower_limits("R", -math.inf).set_upper_limits("R", math.inf).set_values("R", 3.0 * case["truth"][i2]["R"])
+        try:
+            pres = fit_circuit(probe, data, method="leastsq", weight="boukamp", num_procs=1, **kwargs)
+            ctx.observe("tied-start:chisqr", pres.pseudo_chisqr)
+            ctx.check(pres.pseudo_chisqr <= 1e-8, "constraint-is-seen-by-the-optimiser", case,
+                      f"fit started at the truth with only the tied parameter R_b mis-set: pseudo chi-squared {pres.pseudo_chisqr:.3e}, fitted {[e.get_values() for e in pres.circuit.get_elements()]}")
+        except FittingError:
+            pass
         a, b = r_els[i1].get_value("R"), r_els[i2].get_value("R")
         ctx.check(abs(b - ratio * a) <= 1e-9 * abs(b), "constraint-holds", case, f"constraint R_b = {ratio!r} * R_a violated: {b!r} vs {ratio * a!r}")
     # the table of fitted parameters reports exactly the values of the returned circuit
